@@ -35,6 +35,7 @@ def run(tier, seed):
         bounds={'UintN': 'n fully symbolic (64 bit), buffer pre-state symbolic, rejection loop unwound %d attempts (longer tapes cut by an assumption; each attempt is independent fresh tape)' % reads,
                 'UintN long runs': 'concrete n in a boundary set (3, 6, 257, 2^63+1; thorough adds 5, 7, 129, 2^32+1), every tape with up to %d consecutive attempts: the result is the first in-range masked sample' % longrun,
                 'Permutation/SubPermutation/Samples/Shuffle': 'n <= %d, all m in [-1, n+1], every tape without rejected attempts (rejections re-draw independently)' % nmax,
+                'oracle': 'for Permutation / SubPermutation / Samples / Shuffle the oracle is the documented algorithm (inside-out / prefix Fisher-Yates with one UintN draw per step, in order): the tape is recovered from the output, which together with the UintN lemmas gives equal likelihood. An exactly uniform implementation that consumed the source differently would be reported by this check and would need a new bijection lemma',
                 'outside': 'n > %d for the permutation bijection; probability statements are derived outside the solver from the bijections proved here' % nmax},
         assumptions=['randCore.Read returns arbitrary bytes (tape); UintN bijection lemma quantifies over tapes accepted at the first attempt',
                      'size/mask loops of UintN are unwound completely (<= 8 and <= 64 iterations by construction; the engine forks until the loop condition is decided false)'],
